@@ -4,11 +4,12 @@ from .. import versioncheck
 RULE = ("every (msize, count, read|readdir, negotiated once | re-negotiated smaller | larger) of Version.tla's SizeCases (6 msize "
         "values from 64 bytes to 4 MiB x all count classes around msize-11, msize, 4 MiB, 2^32-1) against p9.Server with a backend "
         "that always has enough data/entries: the size field of the reply may never exceed the msize announced last; and the client "
-        "vectors of C12: request and reply sizes within the msize the server announced")
+        "vectors of C12: request and reply sizes within the msize the server announced; plus Treaddir over 72 consecutive msize "
+        "values and 61 counts of msize-11 with mixed name lengths (every position of the cut relative to an entry boundary)")
 
 
 def run(tier, seed):
-    return versioncheck.run("C13", tier, seed, ["size", "client"], RULE,
+    return versioncheck.run("C13", tier, seed, ["size", "client", "dirfit"], RULE,
                             "finite grid, exhaustive; each vector replayed against the real server / client")
 
 
